@@ -917,13 +917,17 @@ class GroupBy:
             for j, result in enumerate(results_one_value):
                 result = result[:-1]  # ignore null group
                 if self._group_key_pointers is None:
-                    pointer = slice(None)
+                    # all chunks share the global codes; leave out the null slot
+                    pointer = slice(0, len(self._result_index))
                 else:
                     pointer = self._group_key_pointers[first_chunk_in + j]
-                combined[pointer] = numba_funcs.reduce_array_pair(
+                chunk_count = counts_one_value[j][:-1]  # ignore null group
+                merged = numba_funcs.reduce_array_pair(
                     combined[pointer], result, reducer=reducer, counts=count[pointer]
                 )
-                count[pointer] += counts_one_value[j][:-1]  # ignore null group
+                # a group without observations in this chunk keeps its value
+                combined[pointer] = np.where(chunk_count > 0, merged, combined[pointer])
+                count[pointer] += chunk_count
             individual_results.append((combined, count))
 
         return individual_results
